@@ -232,6 +232,10 @@ func init() {
 			vx.Job{Scenario: "e2e.route", Params: vx.P("numconn", "0", "apps", "2", "sizes", "5", "rounds", "5", "gap", "100"), Bound: b(0, 1), Weight: 5},
 			// a long-lived session: 17000 (thorough: 70000) streams come and go beside one that stays open
 			vx.Job{Scenario: "mux.longlived", Params: vx.P("n", fmt.Sprint(b(17000, 70000))), Weight: 6},
+			// frames still in flight when their stream is closed locally never surface on another stream
+			vx.Job{Scenario: "mux.lateframe", Params: vx.P("strict", "1"), Bound: b(1, 2), Weight: 3},
+			// several streams sending at once over the WebSocket transport (C05's driver)
+			vx.Job{Scenario: "ws.writers", Params: vx.P("writers", "3", "per", "1"), Bound: 2, Weight: 5},
 			// "any relative delay between the underlying connections": one connection lagging by up to 3000 frames
 			vx.Job{Scenario: "sesh.lag", Bound: 0, Weight: 3},
 			// a burst of streams waiting for the server's accept loop (three proxy clients at once over one connection)
